@@ -126,7 +126,7 @@ def file_coq(path):
     return None
 
 
-def run_once(cfg, total, resume, outdir, known_dirs):
+def run_once(cfg, total, resume, outdir, known_dirs, init_index=0):
     """One call of optimize_kl with the options of cfg.  Returns the observation dict."""
     import nifty.cl as ift
     R = ift.random
@@ -157,6 +157,8 @@ def run_once(cfg, total, resume, outdir, known_dirs):
               plot_energy_history=cfg["plot_e"], plot_minisanity_history=cfg["plot_m"],
               resume=resume, sanity_checks=cfg["sanity"], dry_run=cfg["dry"],
               return_final_position=cfg["ret_pos"])
+    if init_index:
+        kw["initial_index"] = int(init_index)
     if cfg["init_pos"]:
         kw["initial_position"] = init
     if cfg["constants"] == "list":
@@ -197,7 +199,7 @@ def run_once(cfg, total, resume, outdir, known_dirs):
     # environment
     lfile = None if outdir is None else os.path.join(outdir, "last_finished_iteration")
     last0 = int(open(lfile).read()) if lfile and os.path.isfile(lfile) else None
-    rec.first = last0 + 1 if (resume and last0 is not None) else 0
+    rec.first = last0 + 1 if (resume and last0 is not None) else init_index
     files0 = listing(outdir)
     others = {d: listing(d) for d in known_dirs if d != outdir}
     scratch_dir = os.path.join(C.run_dir("C27"), scratch("cwd"))       # relative writes of the driver land here
@@ -270,14 +272,14 @@ def run_once(cfg, total, resume, outdir, known_dirs):
     return o
 
 
-def opts_coq(cfg, total, resume, outdir):
+def opts_coq(cfg, total, resume, outdir, init=0):
     ins = cfg["inspect"]
-    return "(mkOpts %d (tabn %s) %s %s %s %s %s %s %s %s (tabb %s) %s (tabb %s) %d (tabb %s) %s %s)" % (
+    return "(mkOpts %d (tabn %s) %s %s %s %s %s %s %s %s (tabb %s) %s (tabb %s) %d (tabb %s) %s %s %d)" % (
         total, C.clist([str(x) for x in cfg["ns"]]), C.cbool(cfg["sic"]), C.cbool(outdir is not None),
         C.cbool(cfg["save"] == "all"), C.cbool(cfg["plot_e"]), C.cbool(cfg["plot_m"]), C.cbool(resume),
         C.cbool(cfg["sanity"]), C.cbool(cfg["dry"]), C.clist([C.cbool(x) for x in cfg["fresh"]]),
         C.cbool(cfg["term"] is not None), C.clist([C.cbool(x) for x in (cfg["term"] or [False])]), ins,
-        C.clist([C.cbool(x) for x in (cfg["trans"] or [False])]), C.cbool(cfg["ret_pos"]), C.cbool(cfg["export"]))
+        C.clist([C.cbool(x) for x in (cfg["trans"] or [False])]), C.cbool(cfg["ret_pos"]), C.cbool(cfg["export"]), init)
 
 
 def act_coq(a):
@@ -294,7 +296,7 @@ def act_coq(a):
     return "(ATerminate %d %s)" % (a[1], C.cbool(a[2]))
 
 
-def check_term(cfg, total, resume, outdir, o):
+def check_term(cfg, total, resume, outdir, o, init=0):
     """The Coq boolean `model(configuration, environment) == observation`, or None when the
     observation cannot be expressed (unknown file)."""
     f0 = [file_coq(f) for f in o["files0"]]
@@ -309,7 +311,7 @@ def check_term(cfg, total, resume, outdir, o):
     else:
         shape = "(false, 0, false, 0)"
     obs = "(%d, %s, %s, %s, %s)" % (o["code"], shape, C.clist([act_coq(a) for a in o["acts"]]), C.clist(f1), C.clist(fo))
-    return "run_ok %s %s %s %s" % (VARIANT, opts_coq(cfg, total, resume, outdir), env, obs)
+    return "run_ok %s %s %s %s" % (VARIANT, opts_coq(cfg, total, resume, outdir, init), env, obs)
 
 
 def direct_failures(cfg, total, resume, outdir, o, valid):
@@ -358,6 +360,17 @@ def direct_failures(cfg, total, resume, outdir, o, valid):
     return out
 
 
+def precondition_on_directory(r):
+    """A positive initial_index with an output directory continues an earlier call: the minisanity
+    history of iteration initial_index - 1 must be there (it is not if that call was a dry run or was
+    terminated early)."""
+    o = r["obs"]
+    if r["init"] == 0 or r["outdir"] is None or (r["resume"] and o["last0"] is not None):
+        return True
+    name = "latest" if r["cfg"]["save"] == "latest" else "iteration_%d" % (r["init"] - 1)
+    return ("pickle/minisanity_history_" + name) in o["files0"]
+
+
 # --------------------------------------------------------------------------------------------------
 # configurations
 # --------------------------------------------------------------------------------------------------
@@ -384,6 +397,7 @@ PARAMS = {
     "nonlinear": [False, True],
     "callables": [False, True],
     "init_pos": [False, True],
+    "init": [0, 1, 2],
 }
 
 
@@ -396,6 +410,10 @@ def normalise(c):
         c["ns"] = [0]
     if c["resume"] == "continue" and c["total"] < 2:
         c["total"] = 2
+    if c.get("init", 0) > 0:
+        if c["resume"] == "continue":
+            c["resume"] = "no"
+        c["total"] = max(c["total"], c["init"] + 1)
     if c["total"] >= 3 and c["plot_e"] and c["plot_m"]:
         c["plot_m"] = False           # plotting is slow; keep both only for short runs
     return c
@@ -434,7 +452,7 @@ def base_cfg(**kw):
     c = {"total": 2, "ns": [2], "outdir": False, "save": "latest", "plot_e": False, "plot_m": False, "resume": "no",
          "sanity": True, "dry": False, "fresh": [True], "term": None, "inspect": 2, "trans": None, "ret_pos": True,
          "export": False, "constants": "none", "pes": "none", "sic": True, "nonlinear": False, "callables": False,
-         "init_pos": False}
+         "init_pos": False, "init": 0}
     c.update(kw)
     return c
 
@@ -447,6 +465,8 @@ SPECIAL = [
     ("error", base_cfg(inspect=3)),
     ("error", base_cfg(sic=False, ns=[2], sanity=True)),
     ("error-resume-without-outdir", base_cfg()),
+    ("error", base_cfg(total=2, init=2)),                                   # initial_index >= total_iterations
+    ("error-fresh-dir", base_cfg(total=3, init=1, outdir=True)),            # positive initial_index on a fresh directory
 ]
 
 
@@ -460,7 +480,7 @@ class C27(C.Check):
         "numerical content of minimisation and sampling is abstract in the model; the oracle checks result consistency on the tiny model only",
     ]
     assumptions = [
-        "initial_index = 0, comm = None, device_id = -1 (single task, CPU)",
+        "comm = None, device_id = -1 (single task, CPU); a positive initial_index with an output directory continues an earlier call into that directory",
         "the likelihood is valid (MultiDomain, scalar target) and the minimisers return",
         "a directory that is resumed from was written by an earlier call with the same save strategy",
     ]
@@ -477,24 +497,28 @@ class C27(C.Check):
             shutil.rmtree(outdir)
         stages = []
         mode = cfg["resume"]
+        init = cfg.get("init", 0)
+        if init and outdir is not None and kind != "error-fresh-dir":
+            # "May be used if optimize_kl is called multiple times": an earlier call filled the directory
+            stages.append((init, False, outdir, 0))
         if kind == "error-resume-without-outdir":
-            stages.append((cfg["total"], True, None))
+            stages.append((cfg["total"], True, None, init))
         elif mode == "no":
-            stages.append((cfg["total"], False, outdir))
+            stages.append((cfg["total"], False, outdir, init))
         elif mode == "fresh":
-            stages.append((cfg["total"], True, outdir))
+            stages.append((cfg["total"], True, outdir, init))
         elif mode == "continue":
-            stages.append((cfg["total"] - 1, False, outdir))
-            stages.append((cfg["total"], True, outdir))
+            stages.append((cfg["total"] - 1, False, outdir, init))
+            stages.append((cfg["total"], True, outdir, init))
         else:
-            stages.append((cfg["total"], False, outdir))
-            stages.append((cfg["total"], True, outdir))
+            stages.append((cfg["total"], False, outdir, init))
+            stages.append((cfg["total"], True, outdir, init))
         recs = []
-        for total, resume, od in stages:
-            o = run_once(cfg, total, resume, od, self.dirs)
+        for total, resume, od, ini in stages:
+            o = run_once(cfg, total, resume, od, self.dirs, ini)
             if od is not None and od not in self.dirs:
                 self.dirs.append(od)
-            recs.append({"kind": kind, "cfg": cfg, "total": total, "resume": resume, "outdir": od, "obs": o})
+            recs.append({"kind": kind, "cfg": cfg, "total": total, "resume": resume, "outdir": od, "init": ini, "obs": o})
         return recs
 
     def correspondence(self, ctx, res):
@@ -523,7 +547,7 @@ class C27(C.Check):
             self.obs += self.execute(ctx, kind, cfg, "c%03d" % k)
         checks = []
         for r in self.obs:
-            t = check_term(r["cfg"], r["total"], r["resume"], r["outdir"], r["obs"])
+            t = check_term(r["cfg"], r["total"], r["resume"], r["outdir"], r["obs"], r["init"])
             checks.append("false" if t is None else t)
         bad = C.eval_cases(self.prop, scratch("corr"), HEADER, checks)
         for i in bad[:4]:
@@ -531,11 +555,11 @@ class C27(C.Check):
             o = dict(r["obs"])
             res.add_broken("correspondence", "optimize_kl vs coq/C27/Model.v (%s)" % VARIANT,
                            {"kind": r["kind"], "cfg": r["cfg"], "total": r["total"], "resume": r["resume"],
-                            "has_outdir": r["outdir"] is not None,
+                            "has_outdir": r["outdir"] is not None, "initial_index": r["init"],
                             "observed": {k: o[k] for k in ("err", "code", "depth0", "depth1", "last0", "stale", "acts",
                                                            "files0", "files1", "foreign") if k in o},
                             "shape": {k: o.get(k) for k in ("tuple", "n", "residual")}})
-        distinct = len({json.dumps(r["cfg"], sort_keys=True) + str(r["total"]) + str(r["resume"]) for r in self.obs
+        distinct = len({json.dumps(r["cfg"], sort_keys=True) + str((r["total"], r["resume"], r["init"])) for r in self.obs
                         if r["obs"]["code"] == 0 and any(a[0] == "min" for a in r["obs"]["acts"])})
         res.notes.append("timing: %d calls of optimize_kl + coqc %.1fs; uncovered value pairs: %d" % (len(self.obs), time.time() - t0, left))
         res.coverage.update({
@@ -558,7 +582,7 @@ class C27(C.Check):
         seen = set()
         for r in self.obs:
             n += 1
-            valid = r["kind"] == "valid"
+            valid = r["kind"] == "valid" and precondition_on_directory(r)
             for sig, what in direct_failures(r["cfg"], r["total"], r["resume"], r["outdir"], r["obs"], valid):
                 key = json.dumps(sig, sort_keys=True)
                 if key in seen:
@@ -587,7 +611,7 @@ class C27(C.Check):
                     return True
                 d = b["detail"]
                 recs = self.execute(ctx, d["kind"], d["cfg"], "replay")
-                checks = [check_term(r["cfg"], r["total"], r["resume"], r["outdir"], r["obs"]) or "false" for r in recs]
+                checks = [check_term(r["cfg"], r["total"], r["resume"], r["outdir"], r["obs"], r["init"]) or "false" for r in recs]
                 still = still or bool(C.eval_cases(self.prop, scratch("replay"), HEADER, checks))
             return still
         inp = rp["input"]
@@ -597,7 +621,8 @@ class C27(C.Check):
         fails = []
         for k, cfg in enumerate(cfgs):
             for r in self.execute(ctx, inp["kind"], cfg, "replay%d" % k):
-                fails += direct_failures(r["cfg"], r["total"], r["resume"], r["outdir"], r["obs"], inp["kind"] == "valid")
+                fails += direct_failures(r["cfg"], r["total"], r["resume"], r["outdir"], r["obs"],
+                                         inp["kind"] == "valid" and precondition_on_directory(r))
         return any(sig == inp["signature"] for sig, _ in fails)
 
 
